@@ -61,6 +61,73 @@ def singleton_run(klass_name, nthreads, policy, max_steps=400):
   return res
 
 
+REAL_SINGLETONS = ["ActiveFabric", "FiberThreadEvent", "InstrumentionWriter", "Signal", "ReturnStatus"]
+
+
+def real_singleton_run(which, nthreads, policy, max_steps=800):
+  """the library's OWN singleton declarations (miros.activeobject.ActiveFabric, FiberThreadEvent, InstrumentionWriter, miros.event.Signal,
+  ReturnStatus) requested for the first time by several threads at once: the instance is forgotten by the means the declaration
+  offers (the decorator's instance slot, or cache_clear() of a memoiser), the threads request it under the scheduler with every
+  source line of singleton.py and of the constructors as a pre-emption point, and afterwards the original instance is put back."""
+  import miros.singleton as ms
+  import miros.event as mev
+  sched = dsched.Sched(policy, max_steps)
+  sched.trace_funcs = {("singleton.py", "*"), ("activeobject.py", "__init__"), ("event.py", "__init__")}
+  res = {}
+  with shims.installed(sched) as ma:
+    saved_locks = {}
+    for nm, shim in (("Lock", shims.SLock), ("RLock", shims.SRLock)):
+      if hasattr(ms, nm):
+        saved_locks[nm] = getattr(ms, nm)
+        setattr(ms, nm, shim)
+    # (the harness re-creates the three singletons of activeobject.py for every run; the check is about the declarations the module made)
+    declared = lambda w: sched.declared[w] if w in ("ActiveFabric", "FiberThreadEvent", "InstrumentionWriter") else getattr(mev, w)
+    decl = declared(which)
+    undo = []
+    try:
+      # every declaration's own lock becomes a cooperative one for the run (a real lock would block a thread that does not hold the baton)
+      for d in [declared(w) for w in REAL_SINGLETONS] + [getattr(ma, w) for w in ("ActiveFabric", "FiberThreadEvent", "InstrumentionWriter")]:
+        if hasattr(d, "lock") and not isinstance(d.lock, (shims.SLock, shims.SRLock)):
+          undo.append((d, "lock", d.lock))
+          d.lock = shims.SLock()
+      if hasattr(decl, "instance") and not callable(getattr(decl, "instance")):
+        undo.append((decl, "instance", decl.instance))
+        decl.instance = None
+      elif hasattr(decl, "cache_clear"):
+        decl.cache_clear()
+      else:
+        return {"skipped": True, "which": which}
+      restore = lambda: [setattr(o, k, v) for o, k, v in reversed(undo)]
+      got = {}
+
+      def req(name):
+        got[name] = decl()
+      for i in range(nthreads):
+        sched.spawn("t%d" % (i + 1), req, "t%d" % (i + 1))
+      out = sched.run()
+      final = None
+      if out == "quiescent" and not sched.errors:
+        try:
+          final = decl()
+        except Exception:  # noqa
+          final = None
+      objs = []
+      for o in list(got.values()) + [final]:
+        if o is not None and not any(o is x for x in objs):
+          objs.append(o)
+      ident = lambda o: 0 if o is None else 1 + [k for k, x in enumerate(objs) if x is o][0]
+      res = {"outcome": out, "made": len(objs), "got": [ident(got.get("t%d" % (i + 1))) for i in range(nthreads)], "final": ident(final),
+             "errors": len(sched.errors), "errs": sched.errors[:1], "done": all(vt.state == "done" for vt in sched.threads if vt.name.startswith("t")),
+             "choices": list(sched.choices), "klass": which, "ops": [[l[1], l[2]] for l in sched.log][:200]}
+    finally:
+      if restore:
+        restore()
+      for nm, v in saved_locks.items():
+        setattr(ms, nm, v)
+      sched.teardown()
+  return res
+
+
 def singleton_explore(klass_name, nthreads, bound, max_execs):
   """systematic exploration of the interleavings (pre-emption bounded; bound >= #ops is exhaustive)"""
   results = []
